@@ -224,6 +224,9 @@ def r_set(eng, args, kw, st, sink, n):
         if isinstance(want, T.SetT):
             yield st, V(want, want.empty())
             return
+        if want is not None and want.name in eng.empty_hooks:
+            yield st, eng.empty_hooks[want.name](eng)
+            return
         raise Unsupported("set() needs a declared type", n)
     x = args[0]
     t = x.ty
@@ -602,6 +605,7 @@ def install(eng):
     import functools as ft
     import logging
     eng.isinstance_hooks = {}
+    eng.empty_hooks = {}
     eng.hasattr_hooks = {}
     eng.hasattr_obj = {}
     eng.after_mutation = lambda st, bb, what, args, nv: st
